@@ -10,11 +10,25 @@ Pipeline (spec/Caller.tla is the oracle):
      real call stack the record's caller member names.
   3. TLC validates the recording against CallerTrace (AttrD of the same specification).
 
+History component (spec/CallerHist.tla, runs beside the table):
+  4. TLC explores the machine of logger configuration (WithSkip / SetSkip on any live logger, the
+     package-level forms on the default logger, New/With... children, SetDefault, other
+     configuration calls, Emit) exhaustively for small constants, checks the isolation properties
+     on every transition and dumps the graph; a witness run with the named deviation
+     SkipChildByParentOnly must violate WithIsolates.
+  5. an edge cover of the graph plus seeded random deeper histories is executed by the worker
+     (harness/fam_caller_hist.go): after EVERY step records are issued through EVERY live logger
+     (several entry points of different families, real wrapper chains) and the attribution recorded.
+  6. TLC validates the recording against CallerHistTrace (a monitor over the same operators).
+
 `python3 checks/c14.py gen-sites` regenerates harness/fam_caller_sites.go.
 """
+import concurrent.futures
+import hashlib
 import json
 import os
 import random
+import re
 import sys
 import threading
 import time
@@ -23,7 +37,7 @@ HERE = os.path.dirname(os.path.abspath(__file__))
 if __name__ == "__main__":
     sys.path.insert(0, os.path.join(os.path.dirname(HERE), "tools"))
 
-from vlib import Undecided, read_ndjson, write_ndjson  # noqa: E402
+from vlib import Undecided, read_ndjson, write_ndjson, edge_cover, parse_action  # noqa: E402
 from tlagen import gen_mc  # noqa: E402
 
 INVARIANTS = ["TypeOK", "AttributionAtIssuer", "SkipMovesExactlyN", "FormatIndependent", "KindIndependent",
@@ -138,11 +152,455 @@ def execute(ctx, consts, cells, tag):
     return rows, details, v
 
 
+# ---------------------------------------------------------------------------------------------
+# history component (spec/CallerHist.tla, spec/CallerHistTrace.tla, harness/fam_caller_hist.go)
+
+HIST_FAMS = ["verb", "ctx", "attrs", "printf", "pkgverb", "pkgctx", "adapter", "bridge"]
+HIST_INVS = ["HTypeOK", "AliasesAgree", "OnlyExcusedSharing"]
+HIST_PROPS = ["WithIsolates", "SetIsLocal", "NeutralOps", "PkgOnDefault", "EmitAtSkip"]
+HIST_FORMATS = ["json", "logfmt", "color"]
+HIST_BASE = dict(MaxDepthInl=4, MaxDepthNo=8, AllOthers="FALSE")       # parameters of the stack model (Caller)
+HIST_TRACE_LOGGERS = 64
+HIST_TRACE_SKIPS = 8
+HIST_DEV = "SkipChildByParentOnly"
+
+
+def hist_tiers(ctx):
+    """mc: constants of the exhaustive machine (the graph that is replayed edge by edge);
+    cover_k / rand.k: entry points issued through every live logger after every step."""
+    if ctx.quick():
+        return dict(mc=dict(HMaxLoggers=4, HSkips=[0, 1], HHows=["New", "With"], HTouches=["cfg"], HMaxDepth=1),
+                    cover_k=3, max_len=60, chunks=6, par=6, mc_workers=6,
+                    rand=dict(count=600, depth=20, loggers=8, skips=4, k=4))
+    return dict(mc=dict(HMaxLoggers=4, HSkips=[0, 1, 2], HHows=["New", "With"], HTouches=["cfg"], HMaxDepth=2),
+                cover_k=3, max_len=80, chunks=24, par=8, mc_workers=8,
+                rand=dict(count=8000, depth=40, loggers=12, skips=4, k=5))
+
+
+def hist_mc_files(mc, devs, invs=HIST_INVS, props=HIST_PROPS):
+    return gen_mc("MCH", "CallerHist",
+                  dict(Devs=set(), HSkips=set(mc["HSkips"]), HHows=set(mc["HHows"]), HTouches=set(mc["HTouches"]),
+                       HFams=set(HIST_FAMS), HDevs=set(devs)),
+                  ["INIT HInit", "NEXT HNext", "VIEW HView", "ALIAS HDumpAlias", "CHECK_DEADLOCK FALSE",
+                   "INVARIANTS " + " ".join(invs), "PROPERTIES " + " ".join(props)],
+                  plain=dict(HIST_BASE, HMaxLoggers=mc["HMaxLoggers"], HMaxDepth=mc["HMaxDepth"]))
+
+
+_hedge = re.compile(r'^(-?\d+) -> (-?\d+) \[label="(.*?)",color=')
+_hinit = re.compile(r'^(-?\d+) \[label="[^"]*",style = filled')
+_hnode = re.compile(r'^(-?\d+) \[label=')
+
+
+def hist_graph(path):
+    """Edges of the dumped graph without the Emit self-loops (the worker observes every live logger
+    after every step anyway).  Returns (nodes, edges, inits, number of Emit edges)."""
+    nodes, edges, inits, seen, nemit = {}, [], [], set(), 0
+    with open(path, errors="replace") as fh:
+        for line in fh:
+            c = line[:1]
+            if c != "-" and not c.isdigit():
+                continue
+            m = _hedge.match(line)
+            if m:
+                lbl = m.group(3).replace('\\"', '"')
+                if lbl.startswith("Emit("):
+                    nemit += 1
+                    continue
+                e = (m.group(1), lbl, m.group(2))
+                if e not in seen:
+                    seen.add(e)
+                    edges.append(e)
+                continue
+            m = _hnode.match(line)
+            if m:
+                nodes[m.group(1)] = True
+                if _hinit.match(line):
+                    inits.append(m.group(1))
+    if len(inits) != 1:
+        raise Undecided("history graph: %d initial states in the dump" % len(inits))
+    return nodes, edges, inits, nemit
+
+
+def hist_step(label):
+    name, a = parse_action(label)
+    if name in ("WithSkip", "SetSkip") and len(a) == 2:
+        return dict(op=name, l=a[0], n=a[1], how="")
+    if name in ("PkgWithSkip", "PkgSetSkip") and len(a) == 1:
+        return dict(op=name, l=0, n=a[0], how="")
+    if name in ("Derive", "Touch") and len(a) == 2:
+        return dict(op=name, l=a[0], n=0, how=a[1])
+    if name == "SetDefault" and len(a) == 1:
+        return dict(op=name, l=a[0], n=0, how="")
+    raise Undecided("history graph: unexpected edge label %r" % label)
+
+
+def hist_random(rng, rc, withs, touches):
+    """Seeded random histories, deeper and wider than the exhaustive machine: more loggers, skip
+    counts up to rc.skips, every derivation / configuration call the worker knows.  The receiver is
+    a selector that the worker resolves modulo the live handles (recorded in the trace)."""
+    res = []
+    for _ in range(rc["count"]):
+        n, steps = 2, []
+        for _ in range(rng.randint(max(2, rc["depth"] // 2), rc["depth"])):
+            x, sel, sk = rng.random(), rng.randrange(1 << 20), rng.randint(0, rc["skips"])
+            if x < 0.24:
+                st = dict(op="WithSkip", l=sel, n=sk, how="")
+            elif x < 0.48:
+                st = dict(op="SetSkip", l=sel, n=sk, how="")
+            elif x < 0.56:
+                st = dict(op="PkgWithSkip", l=0, n=sk, how="")
+            elif x < 0.64:
+                st = dict(op="PkgSetSkip", l=0, n=sk, how="")
+            elif x < 0.80:
+                st = dict(op="Derive", l=sel, n=0, how="New" if rng.random() < 0.3 else rng.choice(withs))
+            elif x < 0.88:
+                st = dict(op="SetDefault", l=sel, n=0, how="")
+            else:
+                st = dict(op="Touch", l=sel, n=0, how=rng.choice(touches))
+            if st["op"] in ("WithSkip", "PkgWithSkip", "Derive"):
+                if n >= rc["loggers"]:
+                    st = dict(op="SetSkip", l=sel, n=sk, how="")
+                else:
+                    n += 1
+            steps.append(st)
+        res.append(steps)
+    return res
+
+
+def hist_validate(ctx, cap, trace_path, name):
+    """TLC validates one recording; returns the verdict record printed by CallerHistTrace!Done."""
+    mct, cfg = gen_mc("MCHT", "CallerHistTrace",
+                      dict(Devs=set(), HSkips=set(range(HIST_TRACE_SKIPS + 1)), HHows=set(cap["hist_withs"]) | {"New"},
+                           HTouches=set(cap["hist_touches"]), HFams=set(HIST_FAMS), HDevs=set(), TraceFile="trace.ndjson"),
+                      ["SPECIFICATION TSpec", "CHECK_DEADLOCK FALSE", "INVARIANTS Done TStateOK",
+                       "PROPERTIES WithIsolates SetIsLocal NeutralOps PkgOnDefault"],
+                      plain=dict(HIST_BASE, HMaxLoggers=HIST_TRACE_LOGGERS, HMaxDepth=cap["no_depth"], MaxReport=40))
+    r = ctx.tlc("MCHT", "MCHT.cfg", files={"MCHT.tla": mct, "MCHT.cfg": cfg}, copy={trace_path: "trace.ndjson"},
+                workers=1, name=name, timeout=3000, allow_fail=True)
+    if r.invariant_violated:
+        raise Undecided("history trace run: %s violated on a recorded behaviour:\n%s" % (r.invariant_violated, r.out[-3000:]))
+    if not r.ok:
+        raise Undecided("history trace validation failed:\n" + r.out[-5000:])
+    res = r.prints("hverdict")
+    if len(res) != 1:
+        raise Undecided("history trace validation did not reach the end of the log:\n" + r.out[-3000:])
+    try:
+        os.remove(os.path.join(r.dir, "trace.ndjson"))
+    except OSError:
+        pass
+    return res[0]
+
+
+def hist_execute(ctx, cap, behaviours, tag, nchunks, par, detail=False):
+    """Execute behaviours on the library (several worker processes) and validate every recording.
+    Returns dict(bad=[...], lines={(b, s): trace line} for the behaviours named in bad, n, nobs, details)."""
+    chunks, loads = [[] for _ in range(max(1, nchunks))], [0] * max(1, nchunks)
+    for b in sorted(behaviours, key=lambda b: -len(b["steps"])):
+        k = loads.index(min(loads))
+        chunks[k].append(b)
+        loads[k] += len(b["steps"]) + 1
+    chunks = [sorted(c, key=lambda b: b["b"]) for c in chunks if c]
+
+    def one(ci):
+        chunk = chunks[ci]
+        bp = os.path.join(ctx.scratch, "hist-%s-%d.beh.ndjson" % (tag, ci))
+        tp = os.path.join(ctx.scratch, "hist-%s-%d.trace.ndjson" % (tag, ci))
+        dp = os.path.join(ctx.scratch, "hist-%s-%d.detail.ndjson" % (tag, ci))
+        write_ndjson(bp, chunk)
+        t0 = time.time()
+        ctx.run_worker(["c14", "hist", bp, tp] + ([dp] if detail else []), testing=True, timeout=3000)
+        tw = time.time() - t0
+        v = hist_validate(ctx, cap, tp, "caller-hist-trace-%s-%d" % (tag, ci))
+        want = sum(len(b["steps"]) + 1 for b in chunk)
+        lines = {}
+        harness = [r for r in v["bad"] if r["why"] == "harness"]
+        if v["bad"] or v["n"] != want:
+            rows = read_ndjson(tp)
+            herr = [r for r in rows if r.get("herr")]
+            if herr:
+                raise Undecided("history worker could not execute behaviour %d step %d as specified: %s" % (
+                    herr[0]["b"], herr[0]["s"], herr[0]["herr"]))
+            if harness:
+                raise Undecided("history trace line %d (behaviour %s step %s) is not one the specification can judge: %s" % (
+                    harness[0]["line"], harness[0]["b"], harness[0]["s"], harness[0].get("what")))
+            if len(rows) != want:
+                raise Undecided("history worker wrote %d lines, %d expected" % (len(rows), want))
+            badb = set(r["b"] for r in v["bad"])
+            lines = {(r["b"], r["s"]): r for r in rows if r["b"] in badb}
+        if v["n"] != want:
+            raise Undecided("history trace validation consumed %s lines, %d expected" % (v["n"], want))
+        det = read_ndjson(dp) if detail else []
+        for f in (tp, dp):
+            try:
+                os.remove(f)
+            except OSError:
+                pass
+        return v, lines, tw, det
+
+    out = dict(bad=[], lines={}, n=0, nobs=0, nbad=0, worker_s=0.0, details=[])
+    with concurrent.futures.ThreadPoolExecutor(max_workers=max(1, par)) as ex:
+        for v, lines, tw, det in ex.map(one, range(len(chunks))):
+            out["bad"] += v["bad"]
+            out["nbad"] += v["nbad"]
+            out["lines"].update(lines)
+            out["n"] += v["n"]
+            out["nobs"] += v["nobs"]
+            out["worker_s"] += tw
+            out["details"] += det
+    return out
+
+
+def hist_relation(r, x):
+    """Relation of handle x to the receiver of the failing call (par/obj: the tree after the call)."""
+    par, obj = r["par"], r["obj"]
+    o = lambda h: obj[h - 1] if 1 <= h <= len(obj) else 0
+    p = lambda h: o(par[h - 1]) if 1 <= h <= len(par) and par[h - 1] else 0
+    if o(x) == o(r["recv"]):
+        return "receiver"
+    if r["new"] and o(x) == o(r["new"]):
+        return "returned"
+    if p(r["recv"]) and p(r["recv"]) == o(x):
+        return "parent"
+    if p(x) and p(x) == o(r["recv"]):
+        return "child"
+    if p(x) and p(x) == p(r["recv"]):
+        return "sibling"
+    return "other"
+
+
+HIST_REL_ORDER = ["receiver", "returned", "parent", "child", "sibling", "other"]
+
+
+def hist_key(r):
+    """Signature of a divergence.  When every diverging logger also issued a correctly attributed
+    record after the same step the logger's count is right and an entry point is off: ep:<name>
+    (the class the table component reports).  Otherwise the count of a logger is off:
+    hist:<call>:<relation of the nearest diverging logger to the receiver of that call>."""
+    if set(r["ls"]) <= set(r["okls"]):
+        return "hist:ep:" + r["first"]["ep"]
+    wrong = [x for x in r["ls"] if x not in r["okls"]]
+    if r["op"] == "Init":           # a fresh root that does not attribute to the issuing statement
+        return "hist:Init:" + ("default-root" if r["def"] in wrong else "root")
+    rels = sorted((hist_relation(r, x) for x in wrong), key=HIST_REL_ORDER.index)
+    return "hist:%s:%s" % (r["op"], rels[0])
+
+
+def hist_story(lines, b, upto):
+    """The calls of behaviour b up to step `upto` as the program would have written them."""
+    out, n = [], 2
+    for s in range(1, upto + 1):
+        ln = lines.get((b, s))
+        if not ln:
+            break
+        op, l = ln["op"], ln["l"]
+        if op == "WithSkip":
+            txt = "#%d.WithSkip(%d)" % (l, ln["n"])
+        elif op == "PkgWithSkip":
+            txt = "slog.WithSkip(%d) [default #%d]" % (ln["n"], l)
+        elif op == "SetSkip":
+            txt = "#%d.SetSkip(%d)" % (l, ln["n"])
+        elif op == "PkgSetSkip":
+            txt = "slog.SetSkip(%d) [default #%d]" % (ln["n"], l)
+        elif op == "Derive":
+            txt = "#%d.%s(..)" % (l, ln["how"].replace("NewAnon", "New").replace("NewKV", "New"))
+        elif op == "SetDefault":
+            txt = "slog.SetDefault(#%d)" % l
+        else:
+            txt = "#%d.%s" % (l, ln["how"])
+        if op in ("WithSkip", "PkgWithSkip", "Derive"):
+            n += 1
+            txt += " -> #%d" % n
+            if ln["alias"]:
+                txt += " (the same object as #%d)" % ln["alias"]
+        out.append(txt)
+    return "; ".join(out) if out else "(no call yet)"
+
+
+def hist_findings(ctx, cap, res, by_id, source):
+    """Turn the monitor's rejected lines into findings: at most 3 reproducers per signature, each
+    re-executed alone (truncated at the failing step) to confirm it and to collect the record."""
+    per_key = {}
+    for r in sorted(res["bad"], key=lambda r: (r["s"], r["b"])):
+        per_key.setdefault(hist_key(r), []).append(r)
+    picked = [(key, r) for key, rs in sorted(per_key.items(), key=lambda kv: (kv[1][0]["s"], kv[0])) for r in rs[:3]]
+    if not picked:
+        return [], {}
+    # re-execution of the reproducers, with details
+    reb = []
+    for j, (key, r) in enumerate(picked):
+        beh = by_id[r["b"]]
+        reb.append(dict(beh, b=j, steps=beh["steps"][:r["s"]]))
+    try:
+        rr = hist_execute(ctx, cap, reb, "confirm-" + source, 1, 1, detail=True)
+    except Undecided:               # the recording was judged already; only the details are missing
+        rr = dict(bad=[dict(b=j) for j in range(len(reb))], details=[])
+    confirmed = set(x["b"] for x in rr["bad"])
+    findings = []
+    for j, (key, r) in enumerate(picked):
+        f, want = r["first"], r["want"]
+        det = [d for d in rr["details"] if d["b"] == j and d["s"] == r["s"] and d["obs"]["l"] == f["l"] and d["obs"]["ep"] == f["ep"]]
+        det = det[0] if det else None
+        got = {"user": "user frame %d" % f["i"], "lib": "a frame outside the wrapper chain", "none": "no frame of the call stack",
+               "missing": "nothing (no caller member)"}.get(f["k"], f["k"])
+        if det and det.get("gotfunc"):
+            got += " (%s, caller %s)" % (det["gotfunc"], json.dumps(det.get("caller")))
+        rels = ", ".join("#%d (%s)" % (x, hist_relation(r, x)) for x in r["ls"])
+        what = ("history [%s]: %s. After that call a record issued through logger #%d with %s (%d %s wrapper(s)) names %s; "
+                "the skip count given to #%d is %d, so the property demands user frame %d. Diverging loggers: %s; "
+                "%d of the observations after this step diverge, %d behaviour(s) with this signature.%s" % (
+                    source, hist_story(res["lines"], r["b"], r["s"]), f["l"], f["ep"], f["d"],
+                    "inlinable" if f.get("inl") else "noinline", got, f["l"], r["skip"][f["l"] - 1], want["i"], rels,
+                    r["nobs"], len(per_key[key]), "" if j in confirmed else " (NOT reproduced when re-executed alone)"))
+        replay = dict(kind="c14-hist", behaviour=reb[j], source=source, expected=want, skip_counts=r["skip"], parents=r["par"],
+                      observed=dict(first=f, diverging=r["ls"], detail=det))
+        findings.append((key, what, replay))
+    return findings, {k: len(v) for k, v in per_key.items()}
+
+
+def hist_behaviour(ctx, idx, steps, exact, k, dmin):
+    plan = int(hashlib.sha256(("%d/%d" % (ctx.seed, idx)).encode()).hexdigest()[:7], 16)
+    return dict(b=idx, fmt=HIST_FORMATS[(idx + ctx.seed) % 3], names=((idx + ctx.seed) // 3) % 3, plan=plan, k=k, dmin=dmin,
+                exact=exact, steps=steps)
+
+
+def run_hist(ctx, cap):
+    """The history component.  Returns dict(findings=[(key, what, replay)], states, transitions, traces,
+    evaluations, nontrivial, extra, samples); never touches ctx's findings (it runs in a thread)."""
+    T = hist_tiers(ctx)
+    mc = T["mc"]
+    ph = {}
+    if max(mc["HSkips"]) > cap["inl_depth"] or T["rand"]["skips"] > cap["inl_depth"] or cap["no_depth"] < T["rand"]["skips"] + 2:
+        raise Undecided("worker chains are shallower than the history configuration asks for")
+    if sorted(cap.get("hist_fams", [])) != sorted(HIST_FAMS):
+        raise Undecided("entry-point families of the history worker and of the specification differ")
+
+    # ---- 4a. witness: with the named deviation the isolation property must fail (runs beside 4b)
+    wit = {}
+
+    def witness():
+        try:
+            t0 = time.time()
+            mch, cfg = hist_mc_files(mc, [HIST_DEV], invs=["HTypeOK"], props=["WithIsolates"])
+            w = ctx.tlc("MCH", "MCH.cfg", files={"MCH.tla": mch, "MCH.cfg": cfg}, name="caller-hist-witness", workers=2,
+                        allow_fail=True)
+            if "Action property WithIsolates is violated" not in w.out:
+                raise Undecided("history witness: WithIsolates did not fail with %s enabled:\n%s" % (HIST_DEV, w.out[-2000:]))
+            ph["witness"] = round(time.time() - t0, 1)
+        except BaseException as ex:
+            wit["ex"] = ex
+
+    wth = threading.Thread(target=witness)
+    wth.start()
+
+    # ---- 4b. exhaustive machine, action properties on every transition, graph dump
+    t0 = time.time()
+    dot = os.path.join(ctx.scratch, "hist-graph")
+    mch, cfg = hist_mc_files(mc, [])
+    try:
+        r = ctx.tlc("MCH", "MCH.cfg", files={"MCH.tla": mch, "MCH.cfg": cfg}, name="caller-hist-mc", workers=T["mc_workers"],
+                    extra=["-dump", "dot,actionlabels", dot], timeout=3000)
+    finally:
+        wth.join()
+    if "ex" in wit:
+        raise wit["ex"]
+    ph["mc"] = round(time.time() - t0, 1)
+    t0 = time.time()
+    nodes, edges, inits, nemit = hist_graph(dot + ".dot")
+    os.remove(dot + ".dot")
+    if len(nodes) != r.distinct:
+        raise Undecided("history graph has %d nodes, TLC found %d states" % (len(nodes), r.distinct))
+    covers, unvisited = edge_cover(nodes, edges, inits, max_len=T["max_len"])
+    if unvisited:
+        raise Undecided("history edge cover incomplete: %d edges not reachable" % unvisited)
+    steps_of = [hist_step(lbl) for (_, lbl, _) in edges]
+    ph["cover"] = round(time.time() - t0, 1)
+
+    dmin_cover = max(mc["HSkips"])
+    behaviours = [hist_behaviour(ctx, i, [dict(steps_of[e]) for e in beh], True, T["cover_k"], dmin_cover)
+                  for i, beh in enumerate(covers)]
+    n_cover = len(behaviours)
+    rng = random.Random(ctx.seed * 15485863 + 14)
+    rc = T["rand"]
+    withs = sorted(cap["hist_withs"])
+    touches = sorted(cap["hist_touches"])
+    for steps in hist_random(rng, rc, withs, touches):
+        behaviours.append(hist_behaviour(ctx, len(behaviours), steps, False, rc["k"], rc["skips"]))
+    by_id = {b["b"]: b for b in behaviours}
+
+    # ---- 5./6. execute and validate
+    t0 = time.time()
+    res = hist_execute(ctx, cap, behaviours, "all", T["chunks"], T["par"])
+    ph["execute+validate"] = round(time.time() - t0, 1)
+    ph["worker_cpu"] = round(res["worker_s"], 1)
+    t0 = time.time()
+    cover_bad = dict(res, bad=[x for x in res["bad"] if x["b"] < n_cover])
+    rand_bad = dict(res, bad=[x for x in res["bad"] if x["b"] >= n_cover])
+    f1, k1 = hist_findings(ctx, cap, cover_bad, by_id, "edge-cover")
+    f2, k2 = hist_findings(ctx, cap, rand_bad, by_id, "random")
+    seen, findings = set(), []
+    for key, what, rp in f1 + f2:           # at most 3 reproducers per signature over both sources
+        if sum(1 for k in seen if k[0] == key) < 3:
+            seen.add((key, len(seen)))
+            findings.append((key, what, rp))
+    ph["report"] = round(time.time() - t0, 1)
+
+    rand_steps = set()
+    for b in behaviours[n_cover:]:
+        pre = ()
+        for st in b["steps"]:
+            pre = hash((pre, st["op"], st["l"], st["n"], st["how"]))
+            rand_steps.add(pre)
+    keys = dict(k1)
+    for k, v in k2.items():
+        keys[k] = keys.get(k, 0) + v
+    return dict(findings=findings, states=r.distinct, transitions=r.generated, traces=len(behaviours), evaluations=res["nobs"],
+                nontrivial=len(edges) + len(rand_steps),
+                extra=dict(hist_graph_states=len(nodes), hist_graph_edges=len(edges), hist_graph_emit_edges=nemit,
+                           hist_cover_behaviours=n_cover, hist_cover_steps=sum(len(b["steps"]) for b in behaviours[:n_cover]),
+                           hist_random_behaviours=len(behaviours) - n_cover,
+                           hist_random_steps=sum(len(b["steps"]) for b in behaviours[n_cover:]),
+                           hist_trace_lines=res["n"], hist_observations_accepted=res["nobs"], hist_lines_rejected=res["nbad"],
+                           hist_signatures=keys, hist_constants=mc, hist_random_constants=rc,
+                           hist_witness="WithIsolates violated with HDevs={%s} (expected)" % HIST_DEV, hist_phase_s=ph),
+                sample=dict(history=behaviours[n_cover]["steps"][:8] if len(behaviours) > n_cover else behaviours[0]["steps"][:8]))
+
+
+def hist_apply(ctx, h):
+    """Main thread: merge the history component's result into the context."""
+    ctx.states += h["states"]
+    ctx.transitions += h["transitions"]
+    ctx.traces += h["traces"]
+    ctx.evaluations += h["evaluations"]
+    ctx.nontrivial += h["nontrivial"]
+    ctx.extra.update(h["extra"])
+    ctx.sample(h["sample"], limit=6)
+    for key, what, rp in h["findings"]:
+        ctx.finding(key, what, rp)
+    ctx.assumptions += [
+        "history component: a logger is a handle; two handles are the same object only where New's documentation says so "
+        "(WithSkip(l, n) may return the child an earlier WithSkip(l, n) with the same n returned, which then carries n again); "
+        "a child made by New/With...() was never given a count and attributes to the issuing statement whatever its parent carries",
+        "history component: all loggers run at level Info and are observed through entry points that level admits"]
+
+
+
 def run(ctx, replay):
     consts = tiers(ctx)
     if replay:
         with open(replay) as fh:
             rp = json.load(fh)["replay"]
+        if rp.get("kind") == "c14-hist":
+            cap = json.loads(ctx.run_worker(["c14", "list"], testing=True).stdout.strip().splitlines()[-1])
+            beh = dict(rp["behaviour"], b=0)
+            res = hist_execute(ctx, cap, [beh], "replay", 1, 1)
+            fs, _ = hist_findings(ctx, cap, res, {0: beh}, rp.get("source", "replay"))
+            for key, what, rp2 in fs:
+                ctx.finding(key, what, rp2)
+            ctx.traces += 1
+            ctx.evaluations += res["nobs"]
+            ctx.nontrivial += len(beh["steps"])
+            ctx.sample(dict(history=beh["steps"][:8]))
+            return ctx.finish(rule="replay of one recorded history", exhaustive=False)
         consts = rp.get("consts", consts)
         cells = [dict(c, id=i) for i, c in enumerate(rp["cells"])]
         rows, details, v = execute(ctx, consts, cells, "replay")
@@ -191,19 +649,38 @@ def run(ctx, replay):
         except BaseException as ex:       # re-raised in the main thread
             mc["ex"] = ex
 
+    # ---- 4.-6. the history component runs beside the table (own TLC runs, own worker processes)
+    hist = {}
+
+    def history():
+        try:
+            hist["r"] = run_hist(ctx, cap)
+        except BaseException as ex:       # re-raised in the main thread
+            hist["ex"] = ex
+
     th = threading.Thread(target=model_check)
+    th2 = threading.Thread(target=history)
     th.start()
+    th2.start()
     try:
         run_cells(ctx, consts, table, eps)
     finally:
         th.join()
+        th2.join()
     if "ex" in mc:
         raise mc["ex"]
+    if "ex" in hist:
+        raise hist["ex"]
     if mc["r"].distinct < ncells[0]:
         raise Undecided("TLC visited %d states, the table has %d cells" % (mc["r"].distinct, ncells[0]))
-    return ctx.finish(rule="every cell of the TLC-enumerated table (entry point x 3 formats x logger kind x inlinable/noinline "
+    hist_apply(ctx, hist["r"])
+    return ctx.finish(rule="(a) every cell of the TLC-enumerated table (entry point x 3 formats x logger kind x inlinable/noinline "
                            "wrappers x way the skip is given x skip x depth>=skip) is issued on the library and the recorded "
-                           "attribution validated by TLC; non-trivial = distinct cells with skip>0 or at least one wrapper",
+                           "attribution validated by TLC; non-trivial = distinct cells with skip>0 or at least one wrapper; "
+                           "(b) every edge of the TLC-explored machine of logger configuration (WithSkip/SetSkip on any live "
+                           "logger, package-level forms, New/With... children, SetDefault, other configuration) plus seeded "
+                           "random deeper histories is executed, after every step records are issued through every live logger "
+                           "and the attributions validated by TLC; non-trivial = distinct graph edges + distinct random prefixes",
                       exhaustive=True)
 
 
